@@ -56,6 +56,7 @@ def run_graphs(ctx, order, prop_assumptions, small=False):
     for i, c in enumerate(cases):
         c["rot"] = i
         c["root"] = "R"
+        c["akeys"] = i % 2 == 0          # node-graph legs: some keys are aliases to anchored scalars
         if i % 3 == 1:
             # same graph over keys whose YAML spelling is not canonical: x -> 12 (written 0xc, 1_2, +12 ...), y -> true (True, TRUE)
             ren = {"x": "12", "y": "true"}
